@@ -33,6 +33,10 @@ fn main() {
         c11::posthash(&args[2], &args[3]).expect("posthash");
         return;
     }
+    if args.len() == 3 && args[1] == "search-c19" {
+        c19::search_double(args[2].parse().unwrap_or(1));
+        return;
+    }
     if args.len() < 6 || args[1] != "run" {
         eprintln!("usage: harness run <property> <quick|thorough> <seed> <outdir>");
         std::process::exit(2);
